@@ -10,6 +10,7 @@ import (
 	"strings"
 
 	"github.com/tobgu/qframe"
+	"github.com/tobgu/qframe/config/groupby"
 	"github.com/tobgu/qframe/config/csv"
 	"github.com/tobgu/qframe/config/newqf"
 
@@ -68,7 +69,9 @@ func buildEnum(path string, ids []int, cells []*string, declared []string) (res 
 				sp[i] = model.StrP(*s)
 			}
 		}
-		return qframe.New(map[string]interface{}{model.IDCol: append([]int(nil), ids...), "e": sp}, newqf.Enums(enums))
+		opt := newqf.Enums(enums)
+		_ = qframe.New(map[string]interface{}{model.IDCol: append([]int(nil), ids...), "e": append([]*string(nil), sp...)}, opt)
+		return qframe.New(map[string]interface{}{model.IDCol: append([]int(nil), ids...), "e": sp}, opt)
 	case "new-str":
 		ss := make([]string, len(cells))
 		for i, s := range cells {
@@ -98,6 +101,8 @@ func buildEnum(path string, ids []int, cells []*string, declared []string) (res 
 		if declared != nil {
 			fns = append(fns, csv.EnumValues(map[string][]string{"e": declared}))
 		}
+		// the same option values serve two reads (a caller configuring once and reading several files): the second result is used
+		_ = qframe.ReadCSV(bytes.NewReader(buf.Bytes()), fns...)
 		return qframe.ReadCSV(bytes.NewReader(buf.Bytes()), fns...)
 	default: // json
 		recs := make([]map[string]interface{}, len(cells))
@@ -108,7 +113,9 @@ func buildEnum(path string, ids []int, cells []*string, declared []string) (res 
 			}
 		}
 		b, _ := json.Marshal(recs)
-		return qframe.ReadJSON(bytes.NewReader(b), newqf.Enums(enums), newqf.ColumnOrder(model.IDCol, "e"))
+		opts := []newqf.ConfigFunc{newqf.Enums(enums), newqf.ColumnOrder(model.IDCol, "e")}
+		_ = qframe.ReadJSON(bytes.NewReader(b), opts...)
+		return qframe.ReadJSON(bytes.NewReader(b), opts...)
 	}
 }
 
@@ -254,6 +261,18 @@ func runC17(c *fw.Case) {
 	dq := qf
 	if path != "json" {
 		dq, _ = model.Derive(rng, qf, meta, rng.Intn(3), false)
+	}
+	if rng.Intn(4) == 0 && dq.Len() > 0 {
+		// the enum column as the key column of an aggregated frame (one row per distinct value, null included):
+		// it is still the enum over the declared values
+		var ag qframe.QFrame
+		if c.GuardFail("aggregate", "GroupBy(e).Aggregate(min id)", func() {
+			ag = dq.GroupBy(groupby.Columns("e"), groupby.Null(true)).Aggregate(qframe.Aggregation{Fn: "min", Column: model.IDCol})
+		}) && ag.Err == nil {
+			dq = ag
+			path += "+GroupBy(e).Aggregate"
+			c.Count("declared_enum_frames_produced_by_aggregate", 1)
+		}
 	}
 	sh, err := model.ObserveGuard(dq)
 	if err != nil {
